@@ -54,7 +54,7 @@ func ValidQuery(schema *ast.Schema, query string) bool { panic("ghost") }
 //@ end
 
 //@ func (*Gateway).queryHandler$1
-//@ props C08 C10 C07
+//@ props C08 C10 C07 C13
 //@ returns res, err
 //@ requires g != nil && rs != nil && 0 <= index && index < len(rs.Requests) && rs.Requests[index] != nil
 //@ requires g.planner != nil && g.executor != nil && g.queryerFactory != nil && g.schema != nil
@@ -69,7 +69,7 @@ func ValidQuery(schema *ast.Schema, query string) bool { panic("ghost") }
 //@ end
 
 //@ func (*Gateway).queryHandler$2
-//@ props C08
+//@ props C08 C13
 //@ requires value != nil && 0 <= value.index && value.index < len(acc)
 //@ ensures[len] len(result) == len(acc)
 //@ ensures[place] result[value.index] == value
